@@ -51,6 +51,8 @@ def main(args):
     try:
         archive_version_index = None
         staging_path = ctx.output_path / ARCHIVE_STAGING
+        # A restore that was killed may have left its staging directory behind.
+        shutil.rmtree(staging_path, ignore_errors=True)
         staging_path.mkdir(exist_ok=True)
         extract_archive(archive_file, staging_path)
 
